@@ -208,6 +208,14 @@ def r4(ctx, R):
     fn = repo.func(rel, 'RegisterParams._makeAttributeAndRegister')
     src = ast.unparse(fn)
     ok = 'super().__setattr__(name, localVars[name])' in src and 'self._parNamesReadOnly = self._parNamesReadOnly.union(names)' in src
+    # the registries only grow: a later registration never takes a name out of the read-only set
+    shrink = []
+    for x in ast.walk(fn):
+        if isinstance(x, ast.Call) and isinstance(x.func, ast.Attribute) and x.func.attr in ('difference', 'difference_update', 'discard', 'remove', 'pop', 'clear', 'symmetric_difference', 'intersection') and '_parNames' in ast.unparse(x.func.value):
+            shrink.append(f'line {x.lineno}: {ast.unparse(x)[:70]}')
+        if isinstance(x, ast.BinOp) and isinstance(x.op, (ast.Sub, ast.BitAnd, ast.BitXor)) and '_parNames' in ast.unparse(x.left):
+            shrink.append(f'line {x.lineno}: {ast.unparse(x)[:70]}')
+    R.check(not shrink, 'RegisterParams._makeAttributeAndRegister :: the registries only grow (registering a name again never removes its read-only protection)', f'{rel}:RegisterParams._makeAttributeAndRegister', 'union only', shrink)
     R.check(ok, 'RegisterParams._makeAttributeAndRegister :: sets through super().__setattr__ and registers read-only names', f'{rel}:RegisterParams._makeAttributeAndRegister', 'super().__setattr__ ; _parNamesReadOnly.union(names) under readOnly', 'ok' if ok else src[-200:])
 
 
